@@ -50,8 +50,10 @@ class C12Episode(Episode):
         self.world.build_from_ini(self.ini_path)
 
     def write(self, version):
+        txt = render(version, self.cfg.get('check_delay', 1.0))
+        txt = txt.replace('@SCRATCH@', os.path.dirname(self.ini_path))
         with open(self.ini_path, 'w') as f:
-            f.write(render(version, self.cfg.get('check_delay', 1.0)))
+            f.write(txt)
 
     def run_ops(self):
         for i, v in enumerate(self.case['versions'][1:]):
@@ -256,6 +258,11 @@ class C12(Prop):
                            'opts': {'graceful_timeout': rng.choice(
                                [0, 0.05, 0.2])}} for n in names],
              'env': rng.choice([None, {'GLOBAL': 'g1'}]), 'edit': 'initial'}
+        for w0 in v['watchers']:
+            if rng.random() < 0.25:
+                w0['opts']['stdout_stream.class'] = 'FileStream'
+                w0['opts']['stdout_stream.filename'] = \
+                    '@SCRATCH@/%s-out.log' % w0['name']
         versions = [v]
         n = rng.choice([1, 2, 3, 4, 6, 8]) if tier == 'quick' else \
             rng.choice([2, 4, 6, 8])
@@ -263,11 +270,11 @@ class C12(Prop):
         for _ in range(n):
             v = copy.deepcopy(versions[-1])
             ws = v['watchers']
-            kinds = ['add', 'noop', 'env_global']
+            kinds = ['add', 'noop', 'noop', 'env_global']
             if ws:
                 kinds += ['remove', 'np', 'np', 'np', 'cmd', 'option',
                           'new_option', 'new_option', 'env', 'revert',
-                          'drop_option']
+                          'drop_option', 'stream']
             kind = rng.choice(kinds)
             if kind == 'add':
                 free = [x for x in NAMES if x.lower() not in
@@ -305,10 +312,21 @@ class C12(Prop):
                     'max_age': rng.choice([1000, 2000]),
                     'max_age_variance': rng.choice([5, 10]),
                     'close_child_stdout': rng.choice(['True', 'False'])}[k]
+            elif kind == 'stream':
+                w = rng.choice(ws)
+                ch = rng.choice(['stdout_stream', 'stderr_stream'])
+                o = w.setdefault('opts', {})
+                if ch + '.class' in o and rng.random() < 0.4:
+                    o.pop(ch + '.class')
+                    o.pop(ch + '.filename', None)
+                else:
+                    o[ch + '.class'] = 'FileStream'
+                    o[ch + '.filename'] = '@SCRATCH@/%s-%s-%d.log' % (
+                        w['name'], ch, rng.randrange(2))
             elif kind == 'drop_option':
                 w = rng.choice(ws)
                 extra = [k for k in w.get('opts', {})
-                         if k != 'graceful_timeout']
+                         if k != 'graceful_timeout' and '_stream.' not in k]
                 if extra:
                     w['opts'].pop(rng.choice(extra))
                 else:
